@@ -33,6 +33,21 @@ type ctx struct {
 func (c *ctx) emit(op, res string) {
 	fmt.Fprintf(c.out, "%s => %s\n", op, res)
 	c.count++
+	if flushMode {
+		c.out.Flush()
+	}
+}
+
+// flushMode (VERIF_FLUSH=1): every line is flushed and pre() announces an operation before it runs,
+// so that after a crash of the process (e.g. out of memory inside the code under test) the trace
+// shows the history and the operation that killed it.
+var flushMode = os.Getenv("VERIF_FLUSH") == "1"
+
+func (c *ctx) pre(op string) {
+	if flushMode {
+		fmt.Fprintf(c.out, "#> %s\n", op)
+		c.out.Flush()
+	}
 }
 
 // batch announces that the next k trace lines are the outcomes of k operations issued concurrently:
